@@ -3666,6 +3666,17 @@ func (a *Association) handleForwardTSN(chunkTSN *chunkForwardTSN) []*packet {
 	//   its cumulative TSN point to the value carried in the FORWARD TSN
 	//   chunk,
 
+	// A skip for a stream that cannot be registered right now (accept backlog
+	// full) is turned away as a whole, like DATA for such a stream: taking the
+	// TSN part alone would acknowledge a skip the stream never learns of, and
+	// everything after it on that stream would wait for ever. The sender repeats
+	// the FORWARD TSN until it is acknowledged.
+	for _, forwarded := range chunkTSN.streams {
+		if a.getOrCreateStream(forwarded.identifier, true, PayloadTypeUnknown) == nil {
+			return nil
+		}
+	}
+
 	a.payloadQueue.advanceCumulativeTSN(chunkTSN.newCumulativeTSN)
 
 	// Report new peerLastTSN value and abandoned largest SSN value to
@@ -3714,6 +3725,13 @@ func (a *Association) handleIForwardTSN(chunkTSN *chunkIForwardTSN) []*packet {
 		a.awakeWriteLoop()
 
 		return nil
+	}
+
+	// see handleForwardTSN: a skip for a stream that cannot be registered is turned away
+	for _, forwarded := range chunkTSN.streams {
+		if a.getOrCreateStream(forwarded.identifier, true, PayloadTypeUnknown) == nil {
+			return nil
+		}
 	}
 
 	a.payloadQueue.advanceCumulativeTSN(chunkTSN.newCumulativeTSN)
